@@ -336,6 +336,11 @@ class Tight(str):
     the cursor out of the TEXT: `t . k` would make `k` a bare name for it)"""
 
 
+class Brk(str):
+    """a token written at the start of a NEW line (whatever the layout style): the body and the `end` of a callback in a
+    call chain, so that an earlier callback lies strictly above the line on which the next link's callback starts"""
+
+
 FIELDS = ["fa", "fb", "key", "mm", "x", "a", "n", "G", "run", "len"]
 
 
@@ -343,8 +348,100 @@ class WideGen(ProgGen):
     """ProgGen plus `_G.name` reads / writes (name = a visible local, a global or an undefined name), table
     constructors, index expressions, method calls and `function t.f()` / `function t:m()` around plain names"""
 
+    chains = 0.0                 # share of the statements that are call chains with callbacks (see chain_stat); the general
+                                 # stream has none (its programs are large enough), gen_chain_workspace builds small ones
+
     def field(self):
         return Field(self.r.choice(FIELDS))
+
+    def callback(self, d):
+        """`function(ps) <body on its own lines> end`: parameters and a body local (small name pool: they shadow outer
+        names) that are used on lines of their own inside the body"""
+        r = self.r
+        ps, va, ptoks = self.params()
+        if not ps and r.random() < 0.8:
+            ps = [self.fresh("p")]
+            ptoks = [ps[0]] + ([",", "..."] if va else [])
+        self.scopes.append(list(ps))
+        self.vararg.append(va)
+        saved_loop, self.loop = self.loop, 0
+        saved_fn, self.fn = self.fn, 0           # no `return` from block(): the closing lines below come after it
+        body = []
+        if r.random() < 0.8:
+            w = self.fresh()
+            body += [Brk("local"), w, "="] + ([r.choice(ps)] if ps and r.random() < 0.6 else self.exp(2))
+            self.declare(w)
+        saved_budget = self.budget
+        self.budget = given = max(2, min(saved_budget, 3))
+        blk = self.block(d + 2, new_scope=False)
+        self.budget = saved_budget - (given - self.budget)
+        if blk:
+            blk = [Brk(blk[0])] + blk[1:]
+        vis = self.scopes[-1]
+        use = []
+        if vis:
+            use = [Brk(r.choice(UNDEF)), "("] + [r.choice(vis)] + ([",", r.choice(vis)] if r.random() < 0.5 else []) + [")"]
+        ret = []
+        if r.random() < 0.3:
+            ret = [Brk("return")] + self.explist(r.choice([0, 1, 1, 2]), 2)
+        self.loop = saved_loop
+        self.fn = saved_fn
+        self.vararg.pop()
+        self.scopes.pop()
+        return ["function", "("] + ptoks + [")"] + body + blk + use + ret + [Brk("end")]
+
+    def chain_stat(self, d):
+        """a call STATEMENT whose callee contains a function literal and whose own argument list contains another one:
+        `p:next(function(v) ... end):catch(function(e) ... end)`, `p.on(function ... end).on(...)`, 2-3 links, or
+        `;(function(x) ... end)(function(y) ... end)`; every callback body on lines of its own (cgFuncCallStat must
+        analyse the callee before the arguments: the position resolver needs sibling scopes in source order)"""
+        r = self.r
+        if r.random() < 0.12:
+            return [";", "("] + self.callback(d) + [")", "("] + self.callback(d) + [")"]
+        out = self.prefix(1, True)
+        for j in range(r.choice([2, 2, 2, 3])):
+            out += [Tight(":" if r.random() < 0.7 else "."), self.field(), "("]
+            k = r.random()
+            if k < 0.15:
+                out += self.exp(2) + [","]
+            out += self.callback(d)
+            if k > 0.9:
+                out += [","] + self.exp(2)
+            out += [")"]
+        return out
+
+    def chain_chunk(self):
+        """a small chunk with (at least) one call chain: a few statements that declare names, the chain - at top level,
+        in a block or in a function body whose parameters the callbacks may shadow - and a few statements after it"""
+        r = self.r
+        toks = []
+        for _ in range(r.choice([1, 2, 2, 3])):
+            toks += self.local_stat() if r.random() < 0.6 else self.stat(0)
+        k = r.random()
+        if k < 0.5:
+            toks += self.chain_stat(0)
+        elif k < 0.65:
+            self.scopes.append([])
+            inner = (self.local_stat() if r.random() < 0.5 else []) + self.chain_stat(1)
+            self.scopes.pop()
+            toks += ["do"] + inner + ["end"]
+        else:
+            n = self.fresh("f")
+            self.declare(n)
+            ps, va, ptoks = self.params()
+            self.scopes.append(list(ps))
+            self.vararg.append(va)
+            self.fn += 1
+            inner = (self.local_stat() if r.random() < 0.5 else []) + self.chain_stat(1)
+            if r.random() < 0.3:
+                inner += ["return"] + self.explist(r.choice([0, 1]), 2)
+            self.fn -= 1
+            self.vararg.pop()
+            self.scopes.pop()
+            toks += ["local", "function", n, "("] + ptoks + [")"] + inner + ["end"]
+        for _ in range(r.choice([0, 1, 2])):
+            toks += self.stat(0)
+        return toks
 
     def gname(self):
         r = self.r
@@ -426,6 +523,8 @@ class WideGen(ProgGen):
 
     def stat(self, d):
         r = self.r
+        if self.chains and d < 3 and r.random() < self.chains:
+            return self.chain_stat(d)
         k = r.random()
         if k < 0.70:
             return ProgGen.stat(self, d)
@@ -492,6 +591,10 @@ def render(tokens, rng, style=None):
     for t in tokens:
         if prev is not None and (isinstance(t, Tight) or isinstance(prev, Tight)):
             out.append("")
+        elif prev is not None and isinstance(t, Brk):
+            sep = "\n" + " " * rng.choice([0, 0, 2, 4])
+            line, col = line + 1, len(sep) - 1
+            out.append(sep)
         elif prev is not None:
             ns = needs_sep(prev, t)
             k = rng.random()
@@ -840,6 +943,19 @@ def gen_wide_twin_workspace(rng):
     return out
 
 
+def gen_chain_workspace(rng, unique=False):
+    """one small file around a call-chain STATEMENT with callbacks in two or more links, every callback body on lines of
+    its own (seeded C05-5: cgFuncCallStat analysing the arguments before the callee stores the sibling function scopes
+    out of source order; the expression form of the same slip was C14-4)"""
+    g = WideGen(rng, unique=unique, size=rng.choice([3, 4, 6]))
+    text, pos = render(g.chain_chunk(), rng)
+    return [("a.lua", text, ident_positions(pos))]
+
+
+def chain_workspaces(rng, tier, quick, unique=False):
+    return [gen_chain_workspace(rng, unique) for _ in range(n_programs(tier, quick=quick))]
+
+
 def pick_wide_workspace(rng, unique=False):
     return gen_wide_twin_workspace(rng) if (not unique and rng.random() < 0.12) else gen_wide_workspace(rng, unique=unique)
 
@@ -865,6 +981,8 @@ ASSUME = [
     "a global defined by several files resolves through the order-dependent workspace table (C09): such queries are "
     "skipped (SKIP-AMBIG) unless the querying file defines the global itself",
     "Laid P (Locs are token spans of a text) is a hypothesis of the theorems; discharged for parser output by the lead",
+    "wide legs also run small programs around a call-chain STATEMENT with callbacks in two or more links, each callback "
+    "body on lines of its own (gen_chain_workspace): the position resolver needs the sibling function scopes in source order",
 ]
 
 
@@ -899,8 +1017,8 @@ def gen_define(rng, tier):
     return out
 
 
-def run_family(pid, legs, tier, seed, model_pid="C05"):
-    r = BinderRunner(pid, tier, seed)
+def run_family(pid, legs, tier, seed, model_pid="C05", runner_cls=None, assume_extra=()):
+    r = (runner_cls or BinderRunner)(pid, tier, seed)
     if pid == model_pid:
         r.build()
     else:
@@ -931,7 +1049,7 @@ def run_family(pid, legs, tier, seed, model_pid="C05"):
             cnt[k] = cnt.get(k, 0) + 1
         inside = sum(v for k, v in cnt.items() if k == "frag+laid+laid2+norepoint")
         extra = {"theorem_guard_statistics": {"programs": len(progs), "inside_all_guards": inside, "by_guard_vector": cnt}}
-    return r.finish(legs, extra_cov=extra, trusted=TRUSTED, assumptions=ASSUME)
+    return r.finish(legs, extra_cov=extra, trusted=TRUSTED, assumptions=ASSUME + list(assume_extra))
 
 
 def gen_define_wide(rng, tier):
@@ -940,6 +1058,8 @@ def gen_define_wide(rng, tier):
         ws = pick_wide_workspace(rng)
         steps = cursor_steps(["define"], ws, rng)
         out.append(make_case([(fn, text) for fn, text, _ in ws], steps))
+    for ws in chain_workspaces(rng, tier, 16):
+        out.append(make_case([(fn, text) for fn, text, _ in ws], cursor_steps(["define"], ws, rng)))
     return out
 
 
